@@ -20,7 +20,8 @@ RULE = ('generated molecules (corpus, curated, literals, constructive, symmetric
         'star scaffolds with 0-15 neighbours, element x isotope x charge x H sweeps; reactions with 0-3 molecules per role incl. '
         'empty roles; the 4200 published packs. oracles: unpack(pack(m)) field-by-field, pack bytes == reference encoder written '
         'from the layout specification, reference decoder == unpack, pack(unpack(b)) == b for published packs, pack_len, dispatch, '
-        'format limits. non-trivial = atom number > 255 or bond count not divisible by 8 or stereo label or isotope; distinct by pack bytes')
+        'format limits. non-trivial = atom number > 255 or bond count not divisible by 8 or stereo label or isotope; distinct by pack bytes'
+        '; also: the curated witness list is swept completely on every run.')
 ASSUMPTIONS = ['layout as written in the pack() docstring; the orientation of the atom pair in a cis/trans record and float16 '
                'rounding vs truncation are not fixed by it and either is accepted',
                'codec executed through the pyx transliterator; uninitialised C memory is modelled as zero',
@@ -34,7 +35,7 @@ def shards(tier, seed):
     parts = 4 if tier == 'quick' else 16
     step = 10 if tier == 'quick' else 1
     out += [dict(kind='published', part=i, parts=parts, step=step) for i in range(parts)]
-    out += [dict(kind='scaffold')]
+    out += [dict(kind='scaffold'), dict(kind='curated')]
     return out
 
 
@@ -44,6 +45,11 @@ def run_shard(shard, tier, seed):
         strat = st.fixed_dictionaries({'mol': molgen.mol_specs(max_atoms=16), 'seed': st.integers(0, 2 ** 31),
                                        'form': st.sampled_from(['raw', 'kekule', 'thiele', 'thiele'])})
         return hyp_run(ID, strat, check_case, max_examples=shard['n'], seed=seed * 1000 + shard['shard'])
+    if k == 'curated':
+        # the curated witnesses are swept completely on every run (drawn cases meet a given witness only now and then)
+        forms = ['raw', 'kekule', 'thiele']
+        return direct_run(ID, [{'mol': {'k': 'smi', 's': s}, 'seed': seed * 7919 + i, 'form': forms[(i + seed) % 3]}
+                               for i, s in enumerate(molgen.curated())], check_case)
     if k == 'rxn':
         role = st.lists(molgen.mol_specs(max_atoms=8, corpus_w=3, curated_w=3, graph_w=4, sym_w=0), max_size=3)
         strat = st.fixed_dictionaries({'rxn': st.tuples(role, role, role), 'seed': st.integers(0, 2 ** 31)})
